@@ -293,7 +293,9 @@ var semverIdents = []string{"0", "1", "2", "9", "10", "11", "123456789012345678"
 	// numeric identifiers beyond 63 / 64 bits with different digit counts, and alphanumeric identifiers that START with
 	// a digit and sort bytewise between them (int order, decimal order and byte order must not be mixed)
 	"9999999999999999999", "20240115123456789012", "18446744073709551616", "100000000000000000000", "9223372036854775808", "99999999999999999999999",
-	"5-g1a2b3c4", "1e1", "9z", "2x", "10a", "1-1", "5-", "0x10"}
+	"5-g1a2b3c4", "1e1", "9z", "2x", "10a", "1-1", "5-", "0x10",
+	// git describe stamps (<commits>-g<hash>[-dirty]): numeric-looking prefixes inside alphanumeric identifiers
+	"9-g2414721", "10-g2414721", "14-g2414721", "5-g2414721-dirty", "100-gabcdef0", "9-G2414721"}
 
 // SemverPre draws 1..n dot-separated pre-release identifiers.
 func SemverPre(r *rand.Rand, max int) string {
@@ -639,7 +641,7 @@ func GoPseudo(r *rand.Rand) string {
 	case 0:
 		return fmt.Sprintf("v%s.0.0-%s-%s", pick(r, "0", "1", "2"), ts, h)
 	case 1:
-		return fmt.Sprintf("v%s.%s.%s-%s.0.%s-%s", pick(r, "0", "1", "2"), pick(r, "0", "1", "2"), pick(r, "0", "1", "3"), pick(r, "pre", "rc1", "alpha", "beta", "5", "10", "0", "1", "9", "11", "0.0", "2", "x", "rc.1"), ts, h)
+		return fmt.Sprintf("v%s.%s.%s-%s.0.%s-%s", pick(r, "0", "1", "2"), pick(r, "0", "1", "2"), pick(r, "0", "1", "3"), pick(r, "pre", "rc1", "alpha", "beta", "5", "10", "0", "1", "9", "11", "0.0", "2", "x", "rc.1", "20240101120000-abcdefabcdef", "20191109021931-0123456789ab", ts+"-"+h), ts, h)
 	default:
 		return fmt.Sprintf("v%s.%s.%s-0.%s-%s", pick(r, "0", "1", "2"), pick(r, "0", "1", "2"), pick(r, "1", "2", "3"), ts, h)
 	}
@@ -1180,7 +1182,8 @@ func Cluster(eco string, r *rand.Rand) []string {
 			}
 			lead := []string{"-", "-rc.", "-0.", "-alpha.1."}[r.IntN(4)]
 			for _, id := range []string{"1", "9", "10", "9999999999999999999", "20240115123456789012", "18446744073709551616", "100000000000000000000",
-				"5-g1a2b3c4", "1e1", "9z", "2x", "10a", "a", "rc", "z", "-", "0a", "99999999999999999999999"} {
+				"5-g1a2b3c4", "1e1", "9z", "2x", "10a", "a", "rc", "z", "-", "0a", "99999999999999999999999",
+				"9-g2414721", "10-g2414721", "5-g2414721-dirty", "14-g2414721"} {
 				if chance(r, 2, 3) {
 					out = append(out, b3+lead+id)
 				}
